@@ -685,7 +685,25 @@ def r04_13(chk):
     chk.floor("R04.13", 1, "Aligned.__getitem__[FeatureMap]")
 
 
+def r04_14(chk):
+    chk.rule("R04.14", "a view shares its parent's annotation db from the moment it is taken: in Sequence.__getitem__ (old and new type) the db is handed to the slice whenever it is not None -- not when it is 'truthy': an annotation db has __len__, so a db without records is falsy and the slice would keep a private db; features added to the sequence afterwards are then invisible to the view (seq[2:30] taken before add_feature reports nothing)")
+    n = 0
+    for rel in ("core/sequence.py", "core/new_sequence.py"):
+        m = chk.repo.module(rel)
+        fn = m.func("Sequence.__getitem__")
+        hands = [i for i in walk_no_nested(fn) if isinstance(i, ast.If) and any(isinstance(c, ast.Call) and isinstance(c.func, ast.Attribute) and c.func.attr == "replace_annotation_db" for st in i.body for c in ast.walk(st))]
+        if not hands:
+            raise AnalysisError(f"{rel}::Sequence.__getitem__: the hand-over of the annotation db was not found")
+        for i in hands:
+            n += 1
+            t = i.test
+            truthy = [x for x in ([t] + (t.values if isinstance(t, ast.BoolOp) else [])) if isinstance(x, ast.Attribute) and x.attr in ("annotation_db", "_annotation_db")] + [x for x in ([t] + (t.values if isinstance(t, ast.BoolOp) else [])) if isinstance(x, ast.UnaryOp) and isinstance(x.operand, ast.Attribute) and x.operand.attr in ("annotation_db", "_annotation_db")]
+            chk.decide(not truthy, "R04.14", key(m, "Sequence.__getitem__", "db handed over when not None"), m.loc(i), f"`{norm(t)[:60]}`", f"`{norm(t)}` tests the db by its truth value: an empty db is falsy, so a slice taken before any feature is added does not share the parent's db and never sees the features added later")
+    chk.floor("R04.14", 2, "old- and new-type Sequence.__getitem__")
+
+
 def run(chk):
+    r04_14(chk)
     r04_13(chk)
     r04_12(chk)
     r04_11(chk)
